@@ -95,6 +95,14 @@ impl<'a> IrEmitter<'a> {
                 };
                 Ok(lit.to_token_stream())
             }
+            // A literal such as `1e999` overflows to infinity; proc_macro2 refuses non-finite float literals.
+            IrExprKind::Float(n) if !n.is_finite() => Ok(if n.is_nan() {
+                quote! { f64::NAN }
+            } else if *n > 0.0 {
+                quote! { f64::INFINITY }
+            } else {
+                quote! { f64::NEG_INFINITY }
+            }),
             IrExprKind::Float(n) => Ok(quote! { #n }),
             IrExprKind::String(s) => Ok(quote! { #s }),
             IrExprKind::Bytes(bytes) => {
